@@ -363,7 +363,7 @@ func TestC07(t *testing.T) {
 	r := ev.Open(t, "C07")
 	defer r.Close(t)
 	r.Rule("exhaustive: every vocabulary type name of the ground-truth table (written from the ActivityStreams vocabulary), the generic names, the empty name and three names outside the vocabulary " +
-		"x {registry, JSON top level, JSON nested in an item property, JSON nested in a list, the same behind a sibling of a type outside the vocabulary, gob top level, gob nested, and a value that says nothing but its type through JSON, gob top level and gob nested} x {hooks unset, hooks set}. Oracle: concrete Go type == ground truth; decoded id + one " +
+		"x {registry, JSON top level, JSON nested in an item property, JSON nested in a list, the same behind a sibling of a type outside the vocabulary and behind an untyped sibling with the same id and text, gob top level, gob nested, and a value that says nothing but its type through JSON, gob top level and gob nested} x {hooks unset, hooks set}. Oracle: concrete Go type == ground truth; decoded id + one " +
 		"object-core marker + one type-specific marker; family list predicates, IsObject/IsLink/IsCollection and the family's On helper agree with the vocabulary's family; outside the vocabulary without hooks: " +
 		"error, nothing or the untyped *Object fallback; with hooks: identical outcome for vocabulary names. non-trivial = cell with a vocabulary name; distinct by cell")
 	r.Note("only_enumerated_layers", true)
